@@ -32,11 +32,21 @@ import (
 
 	"pgregory.net/rapid"
 
+	"github.com/xuperchain/xupercore/bcs/consensus/tdpos"
+	"github.com/xuperchain/xupercore/bcs/consensus/xpoa"
+	xctx "github.com/xuperchain/xupercore/kernel/common/xcontext"
+	"github.com/xuperchain/xupercore/kernel/consensus/base"
+	cbftCommon "github.com/xuperchain/xupercore/kernel/consensus/base/common"
 	cbft "github.com/xuperchain/xupercore/kernel/consensus/base/driver/chained-bft"
 	cbftCrypto "github.com/xuperchain/xupercore/kernel/consensus/base/driver/chained-bft/crypto"
 	cbftPb "github.com/xuperchain/xupercore/kernel/consensus/base/driver/chained-bft/pb"
 	cctx "github.com/xuperchain/xupercore/kernel/consensus/context"
+	"github.com/xuperchain/xupercore/kernel/consensus/def"
+	"github.com/xuperchain/xupercore/kernel/contract"
+	"github.com/xuperchain/xupercore/kernel/ledger"
+	nctx "github.com/xuperchain/xupercore/kernel/network/context"
 	"github.com/xuperchain/xupercore/kernel/network/p2p"
+	"github.com/xuperchain/xupercore/lib/timer"
 	xuperp2p "github.com/xuperchain/xupercore/protos"
 
 	"verifharness/hx"
@@ -389,8 +399,13 @@ func (e *c14Election) GetValidators(round int64) []string {
 	if round == 1 {
 		return c14Validators(e.n)
 	}
-	// any other view: a set in which every ring key is a member (asking for the wrong view shows up as acceptance)
-	return c14Validators(hx.RingSize)
+	// any other view: a set of the same size in which the two outsider keys replace the last members (asking for
+	// the set of the wrong view lets non-member entries count and shows up as an acceptance)
+	out := c14Validators(e.n)
+	for i, o := 0, []int{c14OutsiderA, c14OutsiderB}; i < len(o) && i < e.n; i++ {
+		out[e.n-1-i] = hx.Ring[o[i]].Address
+	}
+	return out
 }
 func (e *c14Election) GetIntAddress(a string) string { return a }
 
@@ -821,6 +836,8 @@ func c14ThresholdCase(k, n int) error {
 // the test
 
 type c14Stats struct {
+	pathEval  map[string]int
+	pathAcc   map[string]int
 	evaluated map[int]int
 	accepted  map[int]int
 	clean     map[int]int
@@ -887,7 +904,7 @@ func TestC14(t *testing.T) {
 	}
 	c.SetExhaustive("CalVotesThreshold: n=1..10, k=0..n+1")
 
-	st := &c14Stats{map[int]int{}, map[int]int{}, map[int]int{}, map[int]int{}}
+	st := &c14Stats{map[string]int{}, map[string]int{}, map[int]int{}, map[int]int{}, map[int]int{}, map[int]int{}}
 	classLabels := func(k c14Counts) []string {
 		var ls []string
 		add := func(n int, l string) {
@@ -938,8 +955,10 @@ func TestC14(t *testing.T) {
 			labels = append(labels, classLabels(*k)...)
 		}
 		st.evaluated[d.N]++
+		st.pathEval[d.Path]++
 		if v.Accepted {
 			st.accepted[d.N]++
+			st.pathAcc[d.Path]++
 		}
 		c.Count(key, nontrivial, labels...)
 		if nontrivial || (v.Accepted && len(d.Entries) > 2) {
@@ -994,9 +1013,9 @@ func TestC14(t *testing.T) {
 		}
 	}
 	if thorough {
-		c.SetExhaustive("certificates: n<=10, class multisets up to n+1 entries, 2 placements x 2 orders, paths proposal/block/smr/collect (collect: + 2 batched deliveries)")
+		c.SetExhaustive("certificates: n<=10, class multisets up to n+1 entries; paths proposal/block/smr/collect: 2 placements x 2 orders (collect: + 2 batched deliveries); paths tdpos/xpoa CheckMinerMatch: placements {fresh-first, canonical order} and {present-first, reversed}")
 	} else {
-		c.SetExhaustive("certificates: class multisets up to n+1 entries; n<=5: paths proposal/block/smr/collect, placements {fresh-first, canonical order} and {present-first, reversed}, collect + batched delivery; n=6: all paths, canonical placement; n=7: paths proposal/block, canonical placement")
+		c.SetExhaustive("certificates: class multisets up to n+1 entries; n<=5: paths proposal/block/smr/collect, placements {fresh-first, canonical order} and {present-first, reversed}, collect + batched delivery; n<=4: paths tdpos/xpoa CheckMinerMatch, canonical placement; n=6: paths proposal/block/smr/collect, canonical placement; n=7: paths proposal/block, canonical placement")
 	}
 
 	// 3. single votes through CheckVote, n = 1..10
@@ -1056,13 +1075,18 @@ func TestC14(t *testing.T) {
 				t.Errorf("vacuous: no certificate at all was accepted for n=%d (%d evaluated): the necessary-direction oracle decides nothing", n, st.evaluated[n])
 			}
 		}
-		tot := 0
-		for _, n := range ns {
-			tot += st.accepted[n]
+		var ps []string
+		for p := range st.pathEval {
+			ps = append(ps, p)
 		}
-		if tot == 0 {
-			t.Errorf("vacuous: no certificate was accepted in this process (%d evaluated)", len(ns))
+		sort.Strings(ps)
+		for _, p := range ps {
+			if st.pathEval[p] >= 50 && st.pathAcc[p] == 0 {
+				t.Errorf("vacuous: no certificate was accepted on path %s (%d evaluated): the necessary-direction oracle decides nothing there", p, st.pathEval[p])
+			}
 		}
+		c.Extra("accepted_per_path", st.pathAcc)
+		c.Extra("evaluated_per_path", st.pathEval)
 		c.Extra("accepted_per_n", st.accepted)
 		c.Extra("evaluated_per_n", st.evaluated)
 		c.Extra("clean_quorum_per_n", st.clean)
@@ -1078,7 +1102,7 @@ func TestC14(t *testing.T) {
 		c.Check(t, "qc-random", hx.N(1500, 12000), func(cs *hx.Case) {
 			rt := cs.RT()
 			n := rapid.IntRange(lo, hi).Draw(rt, "n")
-			paths := []string{"proposal", "block", "smr", "collect"}
+			paths := []string{"proposal", "block", "smr", "collect", "tdpos", "xpoa"}
 			path := rapid.SampledFrom(paths).Draw(rt, "path")
 			collector := 0
 			if path == "block" {
@@ -1167,22 +1191,28 @@ func TestC14(t *testing.T) {
 
 // c14EnumPaths: the submission paths enumerated exhaustively for a validator-set size.
 func c14EnumPaths(n int, thorough bool) []string {
-	if !thorough && n >= 7 {
+	switch {
+	case thorough:
+		return []string{"proposal", "block", "smr", "collect", "tdpos", "xpoa"}
+	case n >= 7:
 		return []string{"proposal", "block"}
+	case n >= 5:
+		return []string{"proposal", "block", "smr", "collect"}
 	}
-	return []string{"proposal", "block", "smr", "collect"}
+	return []string{"proposal", "block", "smr", "collect", "tdpos", "xpoa"}
 }
 
 // c14EnumVariants: the placement / order / delivery variants enumerated for (n, path).
 func c14EnumVariants(n int, path string, thorough bool) []c14Variant {
+	plugin := path == "tdpos" || path == "xpoa"
 	var vs []c14Variant
 	switch {
-	case thorough:
+	case thorough && !plugin:
 		vs = []c14Variant{{false, false, false}, {true, false, false}, {false, true, false}, {true, true, false}}
 		if path == "collect" {
 			vs = append(vs, c14Variant{false, false, true}, c14Variant{true, false, true})
 		}
-	case n <= 5:
+	case thorough || (n <= 5 && !plugin):
 		// both placements and both orders, but not their product
 		vs = []c14Variant{{false, false, false}, {true, true, false}}
 		if path == "collect" {
@@ -1195,4 +1225,216 @@ func c14EnumVariants(n int, path string, thorough bool) []c14Variant {
 		}
 	}
 	return vs
+}
+
+// ---------------------------------------------------------------------------------------------------------
+// consensus plugins: tdpos / xpoa CheckMinerMatch on a block whose justify is the generated certificate.
+// Stub ledger: blocks 0..2 (block 2 = the certified proposal); the block under check has height 3, its proposer
+// (= the collector) is the validator the slot schedule wants, the validator set in force for the previous block
+// is the plugin's initial set Ring[0..n). Snapshot-derived validator sets (height >= start+3) are not modelled.
+
+type c14Block struct {
+	proposer string
+	height   int64
+	id, pre  []byte
+	storage  []byte
+	ts       int64
+}
+
+func (b *c14Block) GetProposer() []byte                          { return []byte(b.proposer) }
+func (b *c14Block) GetHeight() int64                             { return b.height }
+func (b *c14Block) GetBlockid() []byte                           { return b.id }
+func (b *c14Block) GetConsensusStorage() ([]byte, error)         { return b.storage, nil }
+func (b *c14Block) GetTimestamp() int64                          { return b.ts }
+func (b *c14Block) SetItem(item string, value interface{}) error { return nil }
+func (b *c14Block) MakeBlockId() ([]byte, error)                 { return b.id, nil }
+func (b *c14Block) GetPreHash() []byte                           { return b.pre }
+func (b *c14Block) GetNextHash() []byte                          { return nil }
+func (b *c14Block) GetPublicKey() string                         { return "" }
+func (b *c14Block) GetSign() []byte                              { return nil }
+func (b *c14Block) GetTxIDs() []string                           { return nil }
+func (b *c14Block) GetInTrunk() bool                             { return true }
+
+type c14Ledger struct {
+	chain []*c14Block
+	conf  []byte
+}
+
+var errC14NoBlock = fmt.Errorf("c14 stub ledger: block not found")
+
+func (l *c14Ledger) GetConsensusConf() ([]byte, error) { return l.conf, nil }
+func (l *c14Ledger) QueryBlock(id []byte) (ledger.BlockHandle, error) {
+	for _, b := range l.chain {
+		if string(b.id) == string(id) {
+			return b, nil
+		}
+	}
+	return nil, errC14NoBlock
+}
+func (l *c14Ledger) QueryBlockByHeight(h int64) (ledger.BlockHandle, error) {
+	if h < 0 || h >= int64(len(l.chain)) {
+		return nil, errC14NoBlock
+	}
+	return l.chain[h], nil
+}
+func (l *c14Ledger) GetTipBlock() ledger.BlockHandle { return l.chain[len(l.chain)-1] }
+func (l *c14Ledger) GetTipXMSnapshotReader() (ledger.XMSnapshotReader, error) {
+	return c14SnapReader{}, nil
+}
+func (l *c14Ledger) CreateSnapshot(blkId []byte) (ledger.XMReader, error) { return c14XMReader{}, nil }
+func (l *c14Ledger) GetTipSnapshot() (ledger.XMReader, error)             { return c14XMReader{}, nil }
+
+type c14SnapReader struct{}
+
+func (c14SnapReader) Get(bucket string, key []byte) ([]byte, error) { return nil, nil }
+
+type c14XMReader struct{}
+
+func (c14XMReader) Get(bucket string, key []byte) (*ledger.VersionedData, error) { return nil, nil }
+func (c14XMReader) Select(bucket string, startKey []byte, endKey []byte) (ledger.XMIterator, error) {
+	return nil, fmt.Errorf("c14 stub ledger: no iterator")
+}
+
+type c14Net struct{ account string }
+
+func (c14Net) Start() {}
+func (c14Net) Stop()  {}
+func (c14Net) SendMessage(xctx.XContext, *xuperp2p.XuperMessage, ...p2p.OptionFunc) error {
+	return nil
+}
+func (c14Net) SendMessageWithResponse(xctx.XContext, *xuperp2p.XuperMessage, ...p2p.OptionFunc) ([]*xuperp2p.XuperMessage, error) {
+	return nil, nil
+}
+func (c14Net) NewSubscriber(xuperp2p.XuperMessage_MessageType, interface{}, ...p2p.SubscriberOption) p2p.Subscriber {
+	return nil
+}
+func (c14Net) Register(p2p.Subscriber) error   { return nil }
+func (c14Net) UnRegister(p2p.Subscriber) error { return nil }
+func (c14Net) Context() *nctx.NetCtx           { return nil }
+func (n c14Net) PeerInfo() xuperp2p.PeerInfo   { return xuperp2p.PeerInfo{Account: n.account} }
+
+type c14Contracts struct{}
+
+func (c14Contracts) NewContext(cfg *contract.ContextConfig) (contract.Context, error) {
+	return nil, fmt.Errorf("c14 stub: no contracts")
+}
+func (c14Contracts) NewStateSandbox(cfg *contract.SandboxConfig) (contract.StateSandbox, error) {
+	return nil, fmt.Errorf("c14 stub: no contracts")
+}
+func (c14Contracts) GetKernRegistry() contract.KernRegistry { return c14Registry{} }
+
+type c14Registry struct{}
+
+func (c14Registry) RegisterKernMethod(contract, method string, handler contract.KernMethod) {}
+func (c14Registry) RegisterShortcut(oldmethod, contract, method string)                     {}
+func (c14Registry) GetKernMethod(contract, method string) (contract.KernMethod, error) {
+	return nil, fmt.Errorf("c14 stub: not registered")
+}
+
+const (
+	c14TdposInitMs  = int64(1559021720000)
+	c14XpoaPeriod   = int64(3000)
+	c14XpoaBlockNum = int64(10)
+)
+
+type c14Plugin struct {
+	impl   base.ConsensusImplInterface
+	ledger *c14Ledger
+	ts     int64 // timestamp (ns) of a slot that belongs to validator 0
+}
+
+var c14Plugins = map[string]*c14Plugin{}
+
+func c14PluginOf(name string, n int) (*c14Plugin, error) {
+	key := fmt.Sprintf("%s/%d", name, n)
+	if p, ok := c14Plugins[key]; ok {
+		return p, nil
+	}
+	addrs, _ := json.Marshal(c14Validators(n))
+	var conf string
+	var ts, ts0 int64
+	switch name {
+	case "tdpos":
+		conf = fmt.Sprintf(`{"timestamp":"%d000000","proposer_num":"%d","period":"3000","alternate_interval":"3000","term_interval":"6000","block_num":"20","vote_unit_price":"1","init_proposer":{"1":%s},"bft_config":{}}`,
+			c14TdposInitMs, n, addrs)
+		// term 1 begins at init+3000ms; init+6000ms is block position 1 of proposer 0
+		ts = (c14TdposInitMs + 6000) * 1000000
+		ts0 = (c14TdposInitMs + 1) * 1000000
+	case "xpoa":
+		conf = fmt.Sprintf(`{"period":%d,"block_num":%d,"init_proposer":{"address":%s},"bft_config":{}}`, c14XpoaPeriod, c14XpoaBlockNum, addrs)
+		// a multiple of the term length: position 0, block position 1
+		term := c14XpoaPeriod * int64(n) * c14XpoaBlockNum
+		ts = term * 1000 * 1000000
+		ts0 = ts - 3*c14XpoaPeriod*1000000
+	default:
+		return nil, fmt.Errorf("unknown plugin %s", name)
+	}
+	l := &c14Ledger{conf: []byte(conf)}
+	ids := [][]byte{c14GenesisID, []byte("c14-block-at-height-one-00000001"), c14CertifiedID}
+	for h := 0; h < 3; h++ {
+		b := &c14Block{proposer: hx.Ring[0].Address, height: int64(h), id: ids[h], storage: []byte("{}"), ts: ts0 + int64(h)}
+		if h > 0 {
+			b.pre = ids[h-1]
+		}
+		l.chain = append(l.chain, b)
+	}
+	local := hx.Ring[c14OutsiderB]
+	cctxv := cctx.ConsensusCtx{
+		BaseCtx:  xctx.BaseCtx{XLog: c14NopLog{}, Timer: timer.NewXTimer()},
+		BcName:   hx.BCName,
+		Address:  &cctx.Address{Address: local.Address, PrivateKey: local.Priv, PrivateKeyStr: local.PrvJSON, PublicKey: &local.Priv.PublicKey, PublicKeyStr: local.PubJSON},
+		Crypto:   hx.Crypt,
+		Contract: c14Contracts{},
+		Ledger:   l,
+		Network:  c14Net{account: local.Address},
+	}
+	cfg := def.ConsensusConfig{ConsensusName: name, Config: conf, StartHeight: 1, Index: 0}
+	var impl base.ConsensusImplInterface
+	if name == "tdpos" {
+		impl = tdpos.NewTdposConsensus(cctxv, cfg)
+	} else {
+		impl = xpoa.NewXpoaConsensus(cctxv, cfg)
+	}
+	if impl == nil {
+		return nil, fmt.Errorf("harness: cannot create a %s instance for n=%d", name, n)
+	}
+	p := &c14Plugin{impl: impl, ledger: l, ts: ts}
+	c14Plugins[key] = p
+	return p, nil
+}
+
+func c14RunPlugin(name string) func(d c14Cert) (bool, string, error) {
+	return func(d c14Cert) (bool, string, error) {
+		if d.Collector != 0 {
+			return false, "", fmt.Errorf("descriptor: path %s fixes the collector (block proposer) to validator 0", name)
+		}
+		p, err := c14PluginOf(name, d.N)
+		if err != nil {
+			return false, "", err
+		}
+		// the justify of the block: the certificate over block 2, stored the way ProcessBeforeMiner stores it
+		j := c14Justify(d)
+		j.VoteInfo.ProposalView = 2
+		j.VoteInfo.ParentId = p.ledger.chain[1].id
+		j.VoteInfo.ParentView = 1
+		old, err := cbftCommon.NewToOldQC(j)
+		if err != nil {
+			return false, "", err
+		}
+		storage, err := json.Marshal(cbftCommon.ConsensusStorage{Justify: old, CurTerm: 1, CurBlockNum: 1})
+		if err != nil {
+			return false, "", err
+		}
+		blk := &c14Block{proposer: hx.Ring[0].Address, height: 3, id: c14ProposalID, pre: c14CertifiedID, storage: storage, ts: p.ts}
+		ok, e := p.impl.CheckMinerMatch(&xctx.BaseCtx{XLog: c14NopLog{}, Timer: timer.NewXTimer()}, blk)
+		if ok && e == nil {
+			return true, name + " CheckMinerMatch = true", nil
+		}
+		return false, fmt.Sprintf("%s CheckMinerMatch = %v, %v", name, ok, e), nil
+	}
+}
+
+func init() {
+	c14ExtraPaths["tdpos"] = c14RunPlugin("tdpos")
+	c14ExtraPaths["xpoa"] = c14RunPlugin("xpoa")
 }
